@@ -18,9 +18,7 @@ package main
 import (
 	"encoding/hex"
 	"fmt"
-	"os"
 	"runtime/debug"
-	"runtime/pprof"
 	"sort"
 	"strconv"
 	"sync"
@@ -260,14 +258,9 @@ func main() {
 	}
 	// the workload allocates small short-lived objects only: collect less often
 	// than the default (performance only, no effect on verdicts)
-	debug.SetGCPercent(1600)
-	if pf := os.Getenv("C18_PROF"); pf != "" {
-		f, _ := os.Create(pf)
-		_ = pprof.StartCPUProfile(f)
-		defer pprof.StopCPUProfile()
-	}
+	debug.SetGCPercent(400)
 	r := report.New("C18")
-	if !prefixFree(symsA) || !prefixFree(atomsA2) {
+	if !prefixFree(symsA) || !prefixFree(atomsA2) || !prefixFree(subSyms) {
 		r.Internal("symbol/atom set is not prefix-free: distinct-input counts would be wrong")
 	}
 	G := newStats()
@@ -280,7 +273,7 @@ func main() {
 		}
 	}
 
-	// ---------------- (A) all symbol strings of length <= L ----------------
+	// ---------------- (A) all symbol strings of length <= L; (A+) all of length L+1 over a sub-alphabet ----------------
 	L := r.Pick(5, 6)
 	nsym := len(symsA)
 	type item struct {
@@ -288,54 +281,60 @@ func main() {
 		lo, hi int64
 	}
 	var items []item
-	for l := 0; l <= L; l++ {
-		total := pow(nsym, l)
-		chunk := pow(nsym, 3)
-		for lo := int64(0); lo < total; lo += chunk {
-			hi := lo + chunk
-			if hi > total {
-				hi = total
+	enum := func(syms []string, lmin, lmax int, tag string) {
+		ns := len(syms)
+		items = items[:0]
+		for l := lmin; l <= lmax; l++ {
+			total := pow(ns, l)
+			chunk := pow(ns, 3)
+			for lo := int64(0); lo < total; lo += chunk {
+				hi := lo + chunk
+				if hi > total {
+					hi = total
+				}
+				items = append(items, item{l, lo, hi})
 			}
-			items = append(items, item{l, lo, hi})
 		}
+		report.ParallelFor(len(items), func(ii int) {
+			it := items[ii]
+			st := newStats()
+			buf := make([]byte, 0, 64)
+			digs := make([]int, it.l)
+			for idx := it.lo; idx < it.hi; idx++ {
+				x := idx
+				for p := it.l - 1; p >= 0; p-- {
+					digs[p] = int(x % int64(ns))
+					x /= int64(ns)
+				}
+				buf = buf[:0]
+				for _, d := range digs {
+					buf = append(buf, syms[d]...)
+				}
+				res := checkDecode(buf)
+				st.n[tag+".inputs"]++
+				if res.valid {
+					st.n[tag+".valid"]++
+				}
+				st.classes[res.class]++
+				if res.internal != "" {
+					r.Internal("%s", res.internal)
+				}
+				if len(res.fails) > 0 {
+					report1(decCase("dec", buf, ""), res.fails)
+				}
+			}
+			G.merge(st)
+		})
 	}
-	report.ParallelFor(len(items), func(ii int) {
-		it := items[ii]
-		st := newStats()
-		buf := make([]byte, 0, 64)
-		digs := make([]int, it.l)
-		for idx := it.lo; idx < it.hi; idx++ {
-			x := idx
-			for p := it.l - 1; p >= 0; p-- {
-				digs[p] = int(x % int64(nsym))
-				x /= int64(nsym)
-			}
-			buf = buf[:0]
-			for _, d := range digs {
-				buf = append(buf, symsA[d]...)
-			}
-			res := checkDecode(buf)
-			st.n["A.inputs"]++
-			if res.valid {
-				st.n["A.valid"]++
-			}
-			st.classes[res.class]++
-			if res.internal != "" {
-				r.Internal("%s", res.internal)
-			}
-			if len(res.fails) > 0 {
-				report1(decCase("dec", buf, ""), res.fails)
-			}
-		}
-		G.merge(st)
-	})
-
+	enum(symsA, 0, L, "A")
 	mark("A")
-	if os.Getenv("C18_PROF") != "" {
-		pprof.StopCPUProfile()
-	}
+	// length L+1 exactly: by unique decoding none of these is in A
+	enum(subSyms, L+1, L+1, "A+")
+	inEarlier := func(d []byte) bool { return inA(d, L) || decomposable(string(d), subSyms, L+1) }
+
+	mark("A+")
 	// ---------------- (A2) string literals over atoms ----------------
-	K := r.Pick(3, 4)
+	K := r.Pick(4, 5)
 	na := len(atomsA2)
 	items = items[:0]
 	for l := 0; l <= K; l++ {
@@ -367,7 +366,7 @@ func main() {
 			buf = append(buf, '"')
 			res := checkDecode(buf)
 			st.n["A2.inputs"]++
-			if !inA(buf, L) {
+			if !inEarlier(buf) {
 				st.n["A2.new"]++
 				if res.valid {
 					st.n["A2.new-valid"]++
@@ -396,7 +395,7 @@ func main() {
 	seen := report.NewDistinctSet()
 	isNew := make([]bool, len(fam))
 	for i, d := range fam { // sequential: deterministic "first occurrence"
-		isNew[i] = !inA(d, L) && !inA2(d, K) && seen.Add(string(d))
+		isNew[i] = !inEarlier(d) && !inA2(d, K) && seen.Add(string(d))
 	}
 	report.ParallelFor(len(fam), func(i int) {
 		res := checkDecode(fam[i])
@@ -572,6 +571,8 @@ func main() {
 	r.Set("alphabet", map[string]interface{}{
 		"A_symbols":            quoteAll(symsA),
 		"A_max_length":         L,
+		"A+_sub_alphabet":      quoteAll(subSyms),
+		"A+_length":            L + 1,
 		"A2_string_atoms":      quoteAll(atomsA2),
 		"A2_max_atoms":         K,
 		"A3_families":          map[string]int{"number-boundary-literals-x-embeddings": nNum, "nesting-depth": nNest, "byte-in-template+string-bodies": nByte},
@@ -584,22 +585,22 @@ func main() {
 		"script_decode_inputs": fmt.Sprintf("all symbol strings of length <= %d, all string literals of <= 2 atoms, the number family; each as bytes and as string", LS),
 		"script_encode_values": "all depth-1 and depth-2 values; every 64th index of the depth-3 space",
 	})
-	r.Set("bounds", fmt.Sprintf("decoder: length <= %d over %d symbols (%d strings), string literals of <= %d atoms over %d atoms; encoder: depth <= %d, width <= 2", L, nsym, G.n["A.inputs"], K, na, r.Pick(2, 3)))
+	r.Set("bounds", fmt.Sprintf("decoder: length <= %d over %d symbols (%d strings), length %d over the %d-symbol sub-alphabet (%d strings), string literals of <= %d atoms over %d atoms; encoder: depth <= %d, width <= 2", L, nsym, G.n["A.inputs"], L+1, len(subSyms), G.n["A+.inputs"], K, na, r.Pick(2, 3)))
 	r.Assume("reference = host toolchain's encoding/json (Valid; Decoder with UseNumber); number typing = literal has one of . e E; values per strconv.ParseInt/ParseFloat")
 	r.Assume("strings that are not valid UTF-8 (values or keys) and NaN/Inf are not JSON-representable: for them only 'no panic', 'valid JSON if no error' and agreement modulo the U+FFFD coercion every JSON reader applies are required")
 	r.Assume("Bytes, Char, Time, Error and function values are outside the property's value set: checked for 'no panic' only; cyclic containers are not encoded at all (unbounded recursion is a fatal stack overflow, not a recoverable panic)")
 	r.Assume("key order of maps with two keys follows Go's map iteration and is not controllable; all comparisons are structural and therefore order-independent")
 	r.Assume("immutable arrays/maps count as arrays/maps; a round trip returns their mutable form")
-	states := G.n["A.inputs"] + G.n["A2.new"] + G.n["A3.new"] + G.n["B.depth1.values"] + G.n["B.depth2.values"] + G.n["B.depth3.values"]
-	decCalls := G.n["A.inputs"] + G.n["A2.inputs"] + G.n["A3.inputs"]
+	states := G.n["A.inputs"] + G.n["A+.inputs"] + G.n["A2.new"] + G.n["A3.new"] + G.n["B.depth1.values"] + G.n["B.depth2.values"] + G.n["B.depth3.values"]
+	decCalls := G.n["A.inputs"] + G.n["A+.inputs"] + G.n["A2.inputs"] + G.n["A3.inputs"]
 	scriptRuns := G.n["S.decode-script-runs"] + G.n["S.encode-script-runs"]
 	r.Finish(report.Coverage{
 		States:      states,
 		Transitions: decCalls + G.n["B.encode-decode-calls"] + scriptRuns + G.n["B.other-type-values(no-panic-only)"],
-		Validated:   G.n["A.inputs"] + G.n["A2.new"] + G.n["A3.new"] + G.n["B.compared-with-encoding/json"],
+		Validated:   G.n["A.inputs"] + G.n["A+.inputs"] + G.n["A2.new"] + G.n["A3.new"] + G.n["B.compared-with-encoding/json"],
 		Evaluations: decCalls + G.n["B.depth1.values"] + G.n["B.depth2.values"] + G.n["B.depth3.values"] + scriptRuns + G.n["B.other-type-values(no-panic-only)"],
-		Nontrivial:  G.n["A.valid"] + G.n["A2.new-valid"] + G.n["A3.new-valid"] + G.n["B.depth1.values"] + G.n["B.depth2.values"] + G.n["B.depth3.values"],
-		Rule: "decoder inputs: every string of <= L symbols over the prefix-free 26-symbol alphabet (prefix-free => distinct symbol sequences are distinct byte strings), plus every string literal of <= K atoms over a prefix-free atom set and three explicit families, each counted only if not already contained in an earlier part (membership decided by unique decoding, families deduplicated by a set); encoder values: distinct by construction (distinct scalar names, ordered children, key pairs a<b; depth-3 indices whose children are all scalars are skipped as duplicates of depth 2). state = one distinct input/value; transition = one Decode/Encode call or script run on the implementation; validated = inputs whose accept/reject verdict (and, when valid, value) was compared with encoding/json + encoder values whose text encoding/json read back; non-trivial = distinct decoder inputs that encoding/json calls valid + all encoder values",
+		Nontrivial:  G.n["A.valid"] + G.n["A+.valid"] + G.n["A2.new-valid"] + G.n["A3.new-valid"] + G.n["B.depth1.values"] + G.n["B.depth2.values"] + G.n["B.depth3.values"],
+		Rule: "decoder inputs: every string of <= L symbols over the prefix-free 26-symbol alphabet (prefix-free => distinct symbol sequences are distinct byte strings), every string of exactly L+1 symbols over a 15-symbol sub-alphabet, plus every string literal of <= K atoms over a prefix-free atom set and three explicit families, each counted only if not already contained in an earlier part (membership decided by unique decoding, families deduplicated by a set); encoder values: distinct by construction (distinct scalar names, ordered children, key pairs a<b; depth-3 indices whose children are all scalars are skipped as duplicates of depth 2). state = one distinct input/value; transition = one Decode/Encode call or script run on the implementation; validated = inputs whose accept/reject verdict (and, when valid, value) was compared with encoding/json + encoder values whose text encoding/json read back; non-trivial = distinct decoder inputs that encoding/json calls valid + all encoder values",
 	})
 }
 
